@@ -81,12 +81,12 @@ def remainderBits (v bo chunkLen remLen : Nat) : Nat :=
     let base := chunkLen * 8
     let bits := readByte v base >>> bo
     let bits := remLoop v base bo (byteLen - 1) 1 bits
-    bits &&& ((1 <<< remLen) - 1)
+    bits &&& (u64 (1 <<< remLen) - 1)
 
 /-- little-endian concatenation of 64-bit words -/
 def packWords : List Nat → Nat
   | [] => 0
-  | w :: ws => u64 w + 2 ^ 64 * packWords ws
+  | w :: ws => u64 w ||| (packWords ws <<< 64)
 
 /-- `Buffer::bit_slice(offset, len)` (used for Boolean values and for validity
 `NullBuffer::inner().sliced()`): returns `(value, byte length)`.  Byte-aligned offsets are a
@@ -431,8 +431,12 @@ def updateDictionaries {V} (t : Table V) (m : DictMsg V) : Option (Table V) :=
 
 /-- decoding the dictionary columns of a record batch against the reader's table
 (`create_dictionary_array`; a missing dictionary is an error) -/
-def decodeBatch {V} (t : Table V) (cols : List (Nat × List (Option Nat))) : Option (List (List (Option V))) :=
-  cols.mapM fun c => (t c.1).map fun d => c.2.map fun k => k.bind (d[·]?)
+def decodeBatch {V} (t : Table V) : List (Nat × List (Option Nat)) → Option (List (List (Option V)))
+  | [] => some []
+  | c :: cs =>
+    match t c.1, decodeBatch t cs with
+    | some d, some r => some (c.2.map (fun k => k.bind (d[·]?)) :: r)
+    | _, _ => none
 
 /-- `StreamReader`: messages in order, dictionary batches update the table -/
 def readStream {V} : Table V → List (WireMsg V) → Option (List (List (List (Option V))))
@@ -455,12 +459,20 @@ def readAllDictionaries {V} : Table V → List (WireMsg V) → Option (Table V)
     | some t' => readAllDictionaries t' r
   | t, .batch _ :: r => readAllDictionaries t r
 
+/-- `FileReader::next` over every record batch block, against a fixed table -/
+def readBatches {V} (t : Table V) : List (WireMsg V) → Option (List (List (List (Option V))))
+  | [] => some []
+  | .dict _ :: r => readBatches t r
+  | .batch cols :: r =>
+    match decodeBatch t cols, readBatches t r with
+    | some b, some bs => some (b :: bs)
+    | _, _ => none
+
 /-- `FileReader`: all dictionaries first, then every record batch block against the final table -/
 def readFile {V} (t : Table V) (msgs : List (WireMsg V)) : Option (List (List (List (Option V)))) :=
   match readAllDictionaries t msgs with
   | none => none
-  | some tf =>
-    (msgs.filterMap fun | .batch cols => some cols | .dict _ => none).mapM (decodeBatch tf)
+  | some tf => readBatches tf msgs
 
 /-! ## (d) Flight -/
 
